@@ -1640,7 +1640,7 @@ def expr(o, key, depth, linear=False, force=None, leaves=None):
         if k in ('sum', 'comp', 'pwprod') else None
     s = o.scalar(key + '.xs', nonzero=True)
     seed = o.pick(key + '.xseed', st.integers(0, 9999))
-    n = o.pick(key + '.n', st.integers(0, 3)) if k == 'pow' else 0
+    n = o.pick(key + '.n', (3, 2, 3, 4, 1)) if k == 'pow' else 0
     tmp = o.pick(key + '.tmp', (False, False, True))
     direct = o.pick(key + '.direct', (False, True))
 
@@ -1688,7 +1688,9 @@ def _expr_entry(kind, cls):
     def _f(o):
         # every third case uses operands that are NOT alias-safe (stencils)
         # on a discretized space: a missing temporary becomes visible
-        unsafe = o.pick('unsafe', (False, False, True))
+        # (compositions and powers chain temporaries: two thirds there)
+        unsafe = o.pick('unsafe', (False, True, True) if kind in (
+            'pow', 'comp') else (False, False, True))
         if unsafe:
             sd = space(o, 'space', kinds=('discr',), min_side=3, max_side=6,
                        max_size=40, medium=False, weighted=False)
